@@ -29,7 +29,7 @@ def setup():
     print(out.strip())
     if not ok:
         print("gen_tables failed"); return 2
-    mods = ["Simfile", "Simfile.Driver"] + sorted(v["module"] for v in core.PROPS_INDEX.values())
+    mods = ["Simfile", "Simfile.Driver"] + sorted({m for v in core.PROPS_INDEX.values() for m in [v["module"]] + v.get("extra_modules", [])})
     ok, out = core.lake_build(mods)
     print(out[-3000:])
     return 0 if ok else 2
